@@ -678,7 +678,10 @@ impl<'a> Ctx<'a> {
                                         },
                                         RType::Single { min, max } => match parse_f64(&text) {
                                             Ok(v) => {
-                                                if min.map(|m| v < m.0 as f64).unwrap_or(false) || max.map(|m| v > m.0 as f64).unwrap_or(false) {
+                                                // a single precision element: its text and its limits are compared as single
+                                                // precision numbers (the limits were read that way, 3.4028235e38 is f32::MAX)
+                                                let v = v as f32;
+                                                if min.map(|m| v < m.0).unwrap_or(false) || max.map(|m| v > m.0).unwrap_or(false) {
                                                     self.complain(format!("prototype element <{}> has value {v} outside its own bounds", r.local));
                                                 }
                                             }
